@@ -75,9 +75,20 @@ pub proof fn lemma_div_facts(len: int, c: int)
     ensures 0 <= (len / c) * c <= len, ((len / c) * c == len) == (len % c == 0), 0 <= len / c <= len,
             c * (len / c) == (len / c) * c
 {
-    assert(c * (len / c) == (len / c) * c) by(nonlinear_arith);
-    assert(0 <= (len / c) * c <= len && (((len / c) * c == len) == (len % c == 0)) && 0 <= len / c <= len) by(nonlinear_arith)
-        requires 0 <= len, 0 < c;
+    vstd::arithmetic::div_mod::lemma_fundamental_div_mod(len, c);
+    vstd::arithmetic::div_mod::lemma_mod_bound(len, c);
+    vstd::arithmetic::mul::lemma_mul_is_commutative(c, len / c);
+    vstd::arithmetic::div_mod::lemma_div_pos_is_pos(len, c);
+    vstd::arithmetic::div_mod::lemma_div_is_ordered_by_denominator(len, 1, c);
+    vstd::arithmetic::div_mod::lemma_div_basics(len);
+}
+pub proof fn lemma_mul_div(a: int, b: int)
+    requires a > 0, b >= 0
+    ensures (a * b) % a == 0, (a * b) / a == b, (b * a) % a == 0, (b * a) / a == b, a * b == b * a
+{
+    vstd::arithmetic::mul::lemma_mul_is_commutative(a, b);
+    vstd::arithmetic::div_mod::lemma_div_multiples_vanish(b, a);
+    vstd::arithmetic::div_mod::lemma_mod_multiples_basic(b, a);
 }
 pub proof fn lemma_div_exact(len: int, c: int)
     requires 0 <= len, 0 < c, len % c == 0
